@@ -121,6 +121,15 @@ pub fn exact(r: &mut Rng) -> f64 {
     (i as f64) * 2f64.powi(-k)
 }
 
+/// UTM-like coordinates: a large common offset (up to a few million) on a 1/1024 grid, rings
+/// from a millimetre to about a metre across. Differences are tiny and exact, sums are ~2^24:
+/// the shoelace sum in the form (x2-x1)*(y2+y1) is exact in f64 (checked per ring by
+/// `dump::in_exact_pool`), while algebraically equal rewrites of it are not.
+pub fn utm_like(r: &mut Rng, origin: (f64, f64), axis: usize) -> f64 {
+    let o = if axis == 0 { origin.0 } else { origin.1 };
+    o + (r.below(2049) as i64 - 1024) as f64 / 1024.0
+}
+
 /// Wider dyadic rationals (integers in +-2^20 times 2^-k, k <= 10): ordinary "nice" values.
 pub fn dyadic(r: &mut Rng) -> f64 {
     let i = r.below(1 << 21) as i64 - (1 << 20);
